@@ -103,12 +103,13 @@ type symKube struct {
 	faults    *faultPlan
 	who       string // label of the operation using this client (C09)
 	namespace string
+	failedWaitAt int // index in log of the WatchUntilReady call that was failed, or -1
 }
 
 var theKube *symKube // the cluster the resource.Helper cut reads
 
 func newSymKube(f *faultPlan) *symKube {
-	k := &symKube{cluster: map[objKey]*symObj{}, faults: f, namespace: "default"}
+	k := &symKube{cluster: map[objKey]*symObj{}, faults: f, namespace: "default", failedWaitAt: -1}
 	theKube = k
 	return k
 }
@@ -294,6 +295,7 @@ func (k *symKube) WaitForDelete(resources kube.ResourceList, timeout time.Durati
 func (k *symKube) WatchUntilReady(resources kube.ResourceList, timeout time.Duration) error {
 	k.note(false, "WatchUntilReady %s", names(resources))
 	if k.faults.fail("waiter.WatchUntilReady") {
+		k.failedWaitAt = len(k.log) - 1
 		return fmt.Errorf("injected: hook %s failed", names(resources))
 	}
 	return nil
